@@ -12,7 +12,13 @@ TRUSTED_BASE = [
     'the kernel is abstract in the theorems, constrained to the radial shape W = w(r,h), grad W = g(r,h) x '
     '(checked on the real kernel classes by harness part B; C08 is about w and g)',
     'symmetric duplicate-free neighbour lists are a hypothesis of the system-level theorems (C01 is about the '
-    'searches); the system-level oracle runs the real NNPS classes',
+    'searches); the system-level oracle runs the real NNPS classes: 11 classes x every value of their public '
+    'options x cache on/off x histories (particles removed / added / moved between evaluations on the same NNPS '
+    'and AccelerationEval objects), the property judged after every round',
+    'the neighbour cache (NeighborCache.update / get_neighbors_raw / find_all_neighbors with the resize semantics of '
+    'cyarray arrays) is modelled for the serial path (Model/NbrCacheHist.lean) and tied on every run to the real '
+    'cache objects of every NNPS class over population-changing histories (lists handed out vs the search\'s own '
+    'lists); the cell-mask geometry (Lemmas/NbrMask.lean) is proved, not tied (mask widths are C locals)',
     'compyle/Cython/g++ code generation of the loop bodies is exercised, not modelled (harness part C; C02)',
 ]
 ASSUMPTIONS = [
@@ -23,21 +29,31 @@ ASSUMPTIONS = [
     'edac.MomentumEquationPressureGradient is pair-symmetric only for a uniform average pressure pavg '
     '(proved with that hypothesis, counterexample otherwise); it is measured with uniform pavg',
     'serial CPU path (no OpenMP, no GPU)',
+    'not exercised: ExtendedSpatialHashNNPS(approximate=True) (documented approximation), octree test_parallel, '
+    'DictBoxSortNNPS (does not implement the nogil search the compiled evaluator calls: AccelerationEval sees no '
+    'neighbours with it)',
 ]
 READY = True
 DESIGN_REF = '6/C09'
 TECHNIQUE = ('Lean 4 proof over a model regenerated from the equation sources on every run + bit-exact translator '
-             'validation + conservation oracle on the real compiled AccelerationEval')
+             'validation + neighbour-cache history model tied to the real cache objects + conservation oracle on the '
+             'real compiled AccelerationEval over NNPS classes x options x cache x population histories')
 LEVEL_TEXT = ("Lean 4 theorems, for every linearly ordered field, every kernel of radial shape, every parameter "
               "value, every finite particle set and every symmetric duplicate-free neighbour relation: "
               "sum_pair_antisym_eq_zero, torque_zero_of_central, dwij_antisym, dwi_dwj_swap, and per equation "
               "additive_/pair_antisym_/central_/linear_momentum_/angular_momentum_ for 18 momentum equations "
               "(WCSPH, TVF, EDAC, viscosity, gas-dynamics incl. the grad-h MPM form, solid-mechanics stress form), "
-              "summation_density_pos for two density equations.  The model (loop bodies and precomputed symbols) is "
+              "summation_density_pos for two density equations; for the layer that hands the lists to the equations: "
+              "cache_history_serves_search (any history of population sizes / searches / queries on one NeighborCache, "
+              "any content of fresh memory), cache_lists_symmetric, linear_momentum_WC_MomentumEquation_through_cache, "
+              "cache_keeping_flags_goes_stale (counterexample), cell_mask_covers_criterion, "
+              "strat_hash_mask_reaches_both_ways, strat_hash_mask_needs_H (counterexample).  The model (loop bodies and precomputed symbols) is "
               "re-emitted from /repo's source by a Python-ast translator on every run, so a code change changes the "
               "Lean text the fixed proofs are checked against; the translator is validated bit for bit against the "
               "Python bodies, and the property's own predicate (|sum m a| <= 1e-12 sum m|a|, angular analogue, "
-              "rho > 0) is evaluated on the real compiled code over random closed systems to produce replays.")
+              "rho > 0) is evaluated on the real compiled code over random closed systems - every NNPS class, every "
+              "value of its options, cache on and off, and after every round of remove/add/move histories on the "
+              "same objects - to produce replays.")
 LEVEL_NOTE = ("Trusted: Lean kernel and the three standard axioms; the translator (validated per run, ~3000 bit-exact "
               "comparisons quick); exact-field arithmetic in place of IEEE doubles; radial kernel shape and symmetric "
               "neighbour lists as hypotheses (checked on the real classes / exercised by the system-level oracle); "
